@@ -1754,15 +1754,11 @@ func (t *treasure) SetContentVoid(guardID guard.ID) {
 		return
 	}
 
+	// Void replaces whatever typed value the treasure holds ("the treasure will be retained,
+	// but its content will be set to an empty/null value").
 	t.contentChanged = true
-	if t.treasure.Content == nil {
-		t.treasure.Content = &Content{
-			Void: true,
-		}
-	}
-
-	if t.treasure.Content.Void != false {
-		t.treasure.Content.Void = true
+	t.treasure.Content = &Content{
+		Void: true,
 	}
 
 }
@@ -2376,6 +2372,11 @@ func (t *treasure) Uint32SlicePush(values []uint32) error {
 		// the content now carries an (empty) slice it did not have before: without this flag a
 		// push of no new values onto a loaded treasure is answered from memory (slice size 0)
 		// but never written, so the slice is gone after the next reload
+		t.contentChanged = true
+	}
+	if t.treasure.Content.Void {
+		// a void treasure becomes a slice treasure; left set, Void would hide the slice
+		t.treasure.Content.Void = false
 		t.contentChanged = true
 	}
 
